@@ -918,7 +918,7 @@ func (e *Env) callExpr(x *ECall) tv {
 		r := e.eval(x.Args[0])
 		b, ok := r.v.(*Term)
 		if !ok || b.Sort != SSlice {
-			e.fail("str(): byte slice expected")
+			e.fail("str(): byte slice expected, got %T", r.v)
 		}
 		ts := SStr
 		if u.smtStrings {
